@@ -1,7 +1,7 @@
 #!/bin/bash
 # runs every quick (or $1=thorough) check, prints one line each
 TIER=${1:-quick}
-for i in $(seq -w 1 20); do
+for i in ${CHECKS:-$(seq -w 1 20)}; do
   s=$(date +%s)
   out=$(/venv/bin/python "$(dirname "$0")/../run_check.py" C$i --tier $TIER 2>&1); rc=$?
   e=$(date +%s)
